@@ -707,3 +707,104 @@ Lemma Inv_wsetc_emit : forall (R R' : rel) l w cid c,
 Proof. intros. unfold wsetc. apply Inv_set_emit with (R := R); assumption. Qed.
 
 End Derived3.
+
+Section Derived4.
+Context {H S : Type}.
+Variable hstep : H -> ev -> option H.
+Variable step : S -> ev -> option S.
+Variable h0 : H.
+Variable s0 : S.
+Local Notation INV := (Inv hstep step h0 s0).
+Local Notation rel := (H -> S -> lstate -> Prop).
+
+(* a state change right after an output line *)
+Lemma Inv_emit_wsetc : forall (R R' : rel) l w cid c,
+  INV R w ->
+  is_desync (EOut l) = false ->
+  (forall h x, halt w = false -> R h x (st w) ->
+     match hstep h (EOut l) with
+     | None => True
+     | Some h' => exists x', step x (EOut l) = Some x' /\ R' h' x' (setc (st w) cid c)
+     end) ->
+  INV R' (wsetc (emit l w) cid c).
+Proof.
+  intros R R' l w cid c HI Hd HR. unfold wsetc. rewrite st_emit.
+  eapply Inv_with_st with (R := fun h x _ => R' h x (setc (st w) cid c)); [|auto].
+  eapply Inv_emit; [exact HI|exact Hd|exact HR].
+Qed.
+
+End Derived4.
+
+(* the reply loop of el.open, named *)
+Definition open_loop (cid : Z) : nat -> list Z -> world -> bool * world :=
+  fix open_loop (k : nat) (data : list Z) (w : world) : bool * world :=
+    match k with
+    | O => (false, desync "fuel" w)
+    | S k' =>
+      match data with
+      | [] =>
+        match sys_wr cid (c_fd (wc w cid)) [] true w with
+        | (KErr e, w') => if is_eagain e then (true, w') else (false, w')
+        | (_, w') => (true, w')
+        end
+      | _ =>
+      match sys_wr cid (c_fd (wc w cid)) data true w with
+      | (KErr e, w') =>
+          if is_eagain e then
+            let c' := wc w' cid in (true, wsetc w' cid (c_set_out c' (c_out c' ++ data)))
+          else (false, w')
+      | (KOk n _, w') =>
+          match zdrop n data with
+          | [] => (true, w')
+          | rest => open_loop k' rest w'
+          end
+      | (KNone, w') => (true, w')
+      end
+      end
+    end.
+
+Lemma el_open_eq : forall fuel cid w, el_open fuel cid w =
+  let c := wc w cid in
+  let w1 := wsetc w cid (c_set_opened c true) in
+  let w2 := emit (obs "cb" [ASym "open"; AInt cid]) w1 in
+  let '(act, reply, w3) := handler fuel cid w2 in
+  if negb (c_opened (wc w3 cid)) then
+    match act with
+    | AShutdown => (RShutdown, w3)
+    | _ => (RNil, w3)
+    end
+  else
+  let '(ok, w4) :=
+    match reply with
+    | None => (true, w3)
+    | Some data =>
+      let c3 := wc w3 cid in
+      let w3 := if c_udp c3 then w3 else ghost "openreply" cid [] (ghost "sub" cid data w3) in
+      if c_udp c3 && negb (c_remote c3) then
+        match sys "sendto" [AInt (c_fd c3); ABytes data; bool_arg false] w3 with
+        | (KErr _, w') => (false, w')
+        | (_, w') => (true, w')
+        end
+      else if (match c_out c3 with [] => false | _ => true end) then
+        (true, wsetc w3 cid (c_set_out c3 (c_out c3 ++ data)))
+      else open_loop cid (S (List.length (inp w3))) data w3
+    end in
+  let w4 := ghost "openreply-end" cid [] w4 in
+  if negb ok then (RErr, w4)
+  else
+    let c4 := wc w4 cid in
+    let '(r5, w5) :=
+      match c_out c4 with
+      | _ :: _ => if l_et (st w4) then (RNil, w4) else epctl "mod" (c_fd c4) true false w4
+      | [] => (RNil, w4)
+      end in
+    match r5 with
+    | RNil =>
+      match act with
+      | ANone => (RNil, w5)
+      | AClose => el_close fuel cid true w5
+      | AShutdown => (RShutdown, w5)
+      end
+    | r => (r, w5)
+    end.
+Proof. reflexivity. Qed.
